@@ -306,7 +306,7 @@ func ruleEnvelopeShape(c *Ctx, rule string) {
 		}
 		firstP := fn.Params[2+off]
 		var pol *bool
-		for _, f := range boolFactsAt(e.Send) {
+		for _, f := range boolFactsAt(e.At()) {
 			if f.V == firstP {
 				t := f.True
 				pol = &t
